@@ -71,6 +71,7 @@ def classify(e) -> str:
 
 class C07(Prop):
     id = "C07"
+    noise_sample = 300
     gen_module = "FsErrorsGen"
     judge_module = "FsErrorsJudge"
     assumptions = [
